@@ -104,6 +104,75 @@ theorem borders_spec (r : Region) (rest : List Region) (prevEnd : Nat) :
       · intro h; exact ⟨by omega, by omega, h⟩
       · rintro ⟨_, _, h3⟩; exact h3
 
+/-- sector `s` lies in one of the plain regions (both ends inclusive) -/
+def inPlain (regs : List Region) (s : Nat) : Bool := regs.any (fun r => r.start ≤ s && s ≤ r.stop)
+
+theorem borders_any (r : Region) (rest : List Region) (prev : Option Nat)
+    (h : bordersOk (r :: rest) prev = true) : r.start ≤ r.stop ∧ bordersOk rest (some r.stop) = true := by
+  cases prev with
+  | none => exact (borders_first r rest).mp h
+  | some e => have := (borders_spec r rest e).mp h; exact ⟨this.1, this.2.2⟩
+
+/-- every region and every gap of a table that continues after sector `e` lies beyond `e` -/
+theorem later_beyond (b : Region) (rest : List Region) (e : Nat)
+    (h : bordersOk (b :: rest) (some e) = true) (s : Nat) (hs : s ≤ e) :
+    inPlain (b :: rest) s = false ∧ inGap (gaps (b :: rest)) s = false := by
+  induction rest generalizing b e with
+  | nil =>
+    obtain ⟨_, h2, _⟩ := (borders_spec b [] e).mp h
+    constructor
+    · simp [inPlain]; intro _; omega
+    · simp [gaps, inGap]
+  | cons c rest ih =>
+    obtain ⟨h1, h2, h3⟩ := (borders_spec b (c :: rest) e).mp h
+    obtain ⟨ip, ig⟩ := ih c b.stop h3 (by omega)
+    constructor
+    · simp only [inPlain, List.any_cons] at ip ⊢
+      rw [ip]; simp; intro _; omega
+    · simp only [gaps, inGap, List.any_cons] at ig ⊢
+      rw [ig]; simp; intro _; omega
+
+/-- **A valid table partitions the disc**: every sector from the first region's start up to the last
+    region's last sector lies either in a plain region or in the gap between two of them — never in
+    both, never in neither. So "stored bytes in plain regions, decrypted sectors in encrypted regions"
+    assigns exactly one treatment to every sector of the image. -/
+theorem plain_xor_gap (r : Region) (rest : List Region) (prev : Option Nat)
+    (h : bordersOk (r :: rest) prev = true) (s : Nat) (hlo : r.start ≤ s)
+    (hhi : s ≤ ((r :: rest).getLast (by simp)).stop) :
+    inPlain (r :: rest) s = !inGap (gaps (r :: rest)) s := by
+  induction rest generalizing r prev with
+  | nil =>
+    simp only [List.getLast_singleton] at hhi
+    simp [inPlain, gaps, inGap, hlo, hhi]
+  | cons b rest ih =>
+    obtain ⟨h1, h3⟩ := borders_any r (b :: rest) prev h
+    obtain ⟨hb1, h2, hb3⟩ := (borders_spec b rest r.stop).mp h3
+    have hlast : ((r :: b :: rest).getLast (by simp)) = ((b :: rest).getLast (by simp)) := by
+      simp [List.getLast_cons]
+    rw [hlast] at hhi
+    by_cases hs : s ≤ r.stop
+    · obtain ⟨_, ig⟩ := later_beyond b rest r.stop h3 s hs
+      have e1 : (decide (r.start ≤ s) && decide (s ≤ r.stop)) = true := by simp [hlo, hs]
+      have e2 : (decide (r.stop + 1 ≤ s) && decide (s < b.start)) = false := by simp; intro _; omega
+      simp only [inPlain, List.any_cons, gaps, inGap, e1, e2, Bool.true_or, Bool.false_or]
+      simp only [inGap] at ig
+      rw [ig]; rfl
+    · by_cases hg : s < b.start
+      · have hb' : bordersOk (b :: rest) (some (b.start - 1)) = true :=
+          (borders_spec b rest (b.start - 1)).mpr ⟨hb1, by omega, hb3⟩
+        have ip := (later_beyond b rest (b.start - 1) hb' s (by omega)).1
+        have e1 : (decide (r.start ≤ s) && decide (s ≤ r.stop)) = false := by simp; intro _; omega
+        have e2 : (decide (r.stop + 1 ≤ s) && decide (s < b.start)) = true := by simp; omega
+        simp only [inPlain, List.any_cons] at ip
+        simp only [inPlain, List.any_cons, gaps, inGap, e1, e2, Bool.false_or, Bool.true_or, ip]
+        rfl
+      · have := ih b (some r.stop) h3 (by omega) hhi
+        have e1 : (decide (r.start ≤ s) && decide (s ≤ r.stop)) = false := by simp; intro _; omega
+        have e2 : (decide (r.stop + 1 ≤ s) && decide (s < b.start)) = false := by simp; intro _; omega
+        simp only [inPlain, List.any_cons, gaps, inGap] at this ⊢
+        simp only [e1, e2, Bool.false_or]
+        exact this
+
 /-- a table that is too short for the count it announces, or announces more regions than fit a
     sector, is rejected — whatever follows -/
 theorem short_table_rejected (rd : Nat → Nat → Bytes) (h : decodeTable rd = none) : parseTable rd = none := by
